@@ -2,6 +2,7 @@
 from __future__ import annotations
 
 import ast
+import re
 from typing import Callable, Dict, Iterator, List, Optional, Sequence, Tuple
 
 FuncNode = (ast.FunctionDef, ast.AsyncFunctionDef, ast.Lambda)
@@ -380,8 +381,8 @@ MISSES: List[Tuple[int, str]] = []  # (id(function node), local name a rule aske
 
 
 def _note_miss(func_node: ast.AST, name: str):
-    if not isinstance(name, str) or not name.isidentifier():
-        return
+    if not isinstance(name, str) or not name.isidentifier() or re.fullmatch(r"_b\d+", name):
+        return  # (_bN: the canonical names of comprehension / lambda variables, never locals of the code)
     for n in ast.walk(func_node):
         if isinstance(n, ast.Name) and n.id == name:
             return
@@ -683,3 +684,31 @@ def return_cases(func_node: ast.AST, norm, pm: Optional[Dict] = None) -> Optiona
                 continue
             out[bool_key(g)] = u(v) if v is not None else "None"
     return out
+
+
+def own_stores(func_node: ast.AST):
+    """[(name, line)] of every binding in the function's own scope (comprehension / lambda variables excluded)."""
+    out = []
+    stack = list(ast.iter_child_nodes(func_node))
+    while stack:
+        n = stack.pop()
+        if isinstance(n, (ast.FunctionDef, ast.AsyncFunctionDef, ast.Lambda, ast.ClassDef)):
+            continue
+        if isinstance(n, (ast.ListComp, ast.SetComp, ast.DictComp, ast.GeneratorExp)):
+            stack.append(n.generators[0].iter)
+            continue
+        if isinstance(n, ast.Name) and isinstance(n.ctx, (ast.Store, ast.Del)):
+            out.append((n.id, getattr(n, "lineno", 0)))
+        stack.extend(ast.iter_child_nodes(n))
+    return out
+
+
+def free_names(e: ast.AST):
+    """Names an expression reads from the enclosing scope (variables bound by its own comprehensions / lambdas excluded)."""
+    bound = set()
+    for n in ast.walk(e):
+        if isinstance(n, ast.comprehension):
+            bound |= {x.id for x in ast.walk(n.target) if isinstance(x, ast.Name)}
+        elif isinstance(n, ast.Lambda):
+            bound |= {a.arg for a in n.args.args}
+    return {n.id for n in ast.walk(e) if isinstance(n, ast.Name)} - bound
